@@ -21,6 +21,7 @@ Reading guide
   `class-paren`) and for the empty pattern (§6-O3).
 -/
 import RioModel.Proofs.TreeHistory
+import RioModel.Proofs.TreeUnique
 import RioModel.Proofs.RegexTok
 set_option linter.unusedSimpArgs false
 set_option linter.unusedVariables false
@@ -130,6 +131,10 @@ theorem get_spec {ic : Bool} (t : Item ι V) (hinv : Inv ic t) (p : List Char) :
     t.get p = (t.contents.filter fun e => decide (e.pat = p)).map (·.val) :=
   get_eq_filter t hinv p
 
+/-- `is_empty()` says exactly that nothing is stored. -/
+theorem is_empty_spec {ic : Bool} (t : Item ι V) (hinv : Inv ic t) : t.isEmpty = true ↔ t.contents = [] :=
+  isEmpty_iff t hinv
+
 /-! ### What the operations do to the stored entries -/
 
 /-- **contents_insert.**  Storing `(p, id, v)` replaces the value stored under the same (pattern, id) and
@@ -198,6 +203,44 @@ theorem history_spec_rule (G : List Char → Option Re) (ic : Bool) (ops : List 
       t.len = (refRun [] ops).length ∧
       (∀ p, (t.get p).Perm (((refRun [] ops).filter fun e => decide (e.pat = p)).map (·.val))) :=
   history_spec (prefix_sound G) (fun p hp => (rulePatB_iff p).1 hp) ic ops hok
+
+/-! ### `UniqueRegexTreeMap` -/
+
+/-- For a `UniqueRegexTreeMap` (every insert stores under the pattern itself: `insert(p, v)` is
+`tree.insert(p, p, v)`) the id hypothesis of `history_spec` holds by construction: it is enough that the
+inserted patterns are in the domain. -/
+theorem unique_history_ok (good : List Char → Bool) (ops : List (Op (List Char) V)) (hu : UniqueHist ops)
+    (hg : ∀ p ∈ insertedPats' ops, good p = true) : histOk good [] ops = true :=
+  histOk_unique good ops [] (by simp) hu hg
+
+/-- `UniqueRegexTreeMap::get(p)` after a unique history in the domain: the value last stored under `p` and
+not removed since (`refRemoved L p` = the value of the live entry with id `p`), `None` if there is none. -/
+theorem unique_get_spec {E : Engine} {Good : List Char → Prop} {good : List Char → Bool}
+    (hgood : ∀ p, good p = true → Good p ∧ p ≠ []) (ic : Bool) (ops : List (Op (List Char) V))
+    (hu : UniqueHist ops) (hg : ∀ p ∈ insertedPats' ops, good p = true) (p : List Char) :
+    ∃ t : Item (List Char) V, treeRun E (.empty ic) ops = some t ∧ uGet t p = refRemoved (refRun [] ops) p := by
+  have hok := unique_history_ok good ops hu hg
+  obtain ⟨t, hrun, hrep, _⟩ :=
+    run_spec E hgood ops (.empty ic) [] ⟨inv_empty ic, by simp⟩ (by simp [IdNodup]) (by simp [Dom]) hok
+  refine ⟨t, hrun, uGet_spec hrep ?_ (refRun_unique ops [] (by simp) hu) p⟩
+  -- ids of the live entries are distinct
+  have : ∀ (ops : List (Op (List Char) V)) (L : List (Entry (List Char) V)), IdNodup L →
+      histOk good L ops = true → IdNodup (refRun L ops) := by
+    intro ops
+    induction ops with
+    | nil => intro L h _; exact h
+    | cons op ops ih =>
+      intro L h hk
+      rw [histOk_cons, Bool.and_eq_true] at hk
+      refine ih _ ?_ hk.2
+      cases op with
+      | insert q id v =>
+        simp only [opOk, Bool.and_eq_true, List.all_eq_true, decide_eq_true_eq] at hk
+        exact h.refInsert hk.1.2 v
+      | remove id => exact h.refRemove id
+      | retain f => exact h.refRetain f
+      | cache _ _ => exact h
+  exact this ops [] (by simp [IdNodup]) hok
 
 /-! ### Outside the domain: the full statement is false of the code (kernel-checked witnesses) -/
 
